@@ -54,13 +54,22 @@ class ResDomain(Domain):
         elif d.t == {'next': 1} and d.c == 0: key = 'next0'
         elif d.t == {'id': 1, 'bound': -1} and d.c == 0: key = 'ord'
         elif d.t == {'id': -1, 'bound': 1} and d.c == 0: key = 'ord'; d = -d; op = {'<': '>', '>': '<', '<=': '>=', '>=': '<='}.get(op, op)
-        if key is None or key not in self.val: return None
-        self.consulted.add(key)
-        v = self.val[key]
-        if key in ('cnt1', 'cnt0', 'next0'):
-            sign = 0 if v else 1        # quantity is 0 (atom true) or positive
+        elif d.t == {'next': 1, 'bound': -1} and d.c == 0: key = 'nb'          # outstanding tickets  <=>  queue not empty (I4)
+        elif d.t == {'next': -1, 'bound': 1} and d.c == 0: key = 'nb'; d = -d; op = {'<': '>', '>': '<', '<=': '>=', '>=': '<='}.get(op, op)
+        elif d.t == {'next': 1, 'bound2': -1} and d.c == 0: key = 'ord_after'  # own ticket (the pre-increment counter) vs the bound seen after a wake-up
+        elif d.t == {'next': -1, 'bound2': 1} and d.c == 0: key = 'ord_after'; d = -d; op = {'<': '>', '>': '<', '<=': '>=', '>=': '<='}.get(op, op)
+        if key == 'nb':
+            if 'QE' not in self.val: return None
+            self.consulted.add('QE')
+            sign = 0 if self.val['QE'] else 1
         else:
-            sign = {'<': -1, '=': 0, '>': 1}[v]
+            if key is None or key not in self.val: return None
+            self.consulted.add(key)
+            v = self.val[key]
+            if key in ('cnt1', 'cnt0', 'next0'):
+                sign = 0 if v else 1        # quantity is 0 (atom true) or positive
+            else:
+                sign = {'<': -1, '=': 0, '>': 1}[v]
         import operator
         return {'<': operator.lt, '<=': operator.le, '>': operator.gt, '>=': operator.ge, '==': operator.eq, '!=': operator.ne}[op](sign, 0)
 
@@ -94,7 +103,12 @@ class ResDomain(Domain):
             if base.startswith('wait'):
                 a = [ex._rvalue(x, st, fr) for x in n.ns('args') if x is not None]
                 pred = next((x for x in a if isinstance(x, Closure)), None)
-                st.events.append(('wait', n, pred)); return None
+                st.events.append(('wait', n, pred))
+                if pred is None:
+                    # loop form: while this thread slept, other threads changed the monitor state
+                    for fldn, sym in (('m_upperUnlockBound', 'bound2'), ('m_idCounter', 'next2'), ('m_activeCount', 'cnt2')):
+                        st.store[('f', fr.this + (fldn,))] = Lin.sym(sym)
+                return None
             st.events.append((base, n, None)); return None
         if obj is not None and obj.is_field('m_mutex', CLS):
             st.events.append(('mutex.' + base, n, None)); return None
@@ -149,6 +163,15 @@ class ResourceAnalysis:
     def add(self, rule, ok, instance, site, why=''):
         self.results.setdefault(rule, []).append((ok, instance, site, why))
 
+    def add3(self, rule, got, want_set, instance, site, why):
+        """tri-state: `got` must be a value the evaluator understood (Lin / Enum); otherwise the instance is inconclusive"""
+        if not isinstance(got, (Lin, Enum, bool, int)):
+            self.unknown(rule, instance, site, f'value not understood by the evaluator: {got}')
+            return None
+        ok = any(got == w for w in want_set)
+        self.add(rule, ok, instance, site, '' if ok else why)
+        return ok
+
     def unknown(self, rule, instance, site, why):
         self.results.setdefault(rule, []).append((None, instance, site, why))
 
@@ -184,104 +207,143 @@ class ResourceAnalysis:
         site = f.shortloc()
         this = ('this',)
         seen = {}
-        for v in rows_lock():
-            dom = ResDomain(v); ex = Exec(self.facts, dom)
-            paths = ex.run(f, args=None)
-            used = tuple(sorted(dom.consulted))
-            # rows that differ only in atoms the code never looked at take the same path, but the specification may still
-            # distinguish them (a guard that forgot to look at the queue): keep QE / op / t in every row
-            keep = set(used) | {'QE', 'op', 't'}
-            sig = tuple((k, v[k]) for k in sorted(keep) if k in v)
-            if sig in seen: continue
-            seen[sig] = True
-            row = show(v, [k for k in ('QE', 'op', 't', 'back', 'front', 'next0') if k in keep])
-            for P in paths:
-                if P.unknown_atoms:
-                    c = P.unknown_atoms[0]
-                    self.unknown('RES.2', f'row {row}', c.shortloc(), f'branch atom outside the table vocabulary: {c.text()[:80]}')
-                    continue
-                waited = bool(P.ev('wait'))
-                admit_ok = v['op'] == 'None' or (v['op'] == 'Read' and v['t'] == 'Read')
-                # RES.2a / 2b / 2c
-                if not waited:
-                    self.add('RES.2a', admit_ok, f'row {row}: admitted without waiting', site,
-                             '' if admit_ok else f'fast path admits a {v["t"]} request while the active operation is {v["op"]}: {row}')
-                    self.add('RES.2b', v['QE'], f'row {row}: admitted without waiting', site,
-                             '' if v['QE'] else f'fast path admits past a non-empty queue (barging): {row}')
-                if v['QE'] and v['op'] in ('None', 'Read') and v['t'] == 'Read':
-                    self.add('RES.2c', not waited, f'row {row}: reader, no writer active or queued', site,
-                             '' if not waited else f'a read request waits although no write request is active or waiting: {row}')
-                st = P.store
-                op1 = fld(st, this, 'm_activeOp', dom); cnt1 = fld(st, this, 'm_activeCount', dom)
-                nxt1 = fld(st, this, 'm_idCounter', dom); bnd1 = fld(st, this, 'm_upperUnlockBound', dom)
-                bound_ok = bnd1 == Lin.sym('bound')
-                self.add('RES.11', bound_ok, f'row {row}: lock() leaves the published bound alone', site,
-                         '' if bound_ok else f'lock() writes m_upperUnlockBound (= {bnd1}) outside select(): admitted waiters with id >= the new bound sleep forever')
-                if not waited:
-                    ok = op1 == E(v['t']) and cnt1 == Lin.sym('cnt') + Lin.const(1) and nxt1 == Lin.sym('next') and not P.ev('q')
-                    why = ''
-                    if not ok:
-                        why = f'fast path must set op := t, cnt := cnt+1 and take no ticket; found op\'={op1}, cnt\'={cnt1}, next\'={nxt1}, queue ops={[e[2][0] for e in P.ev("q")]}'
-                        if nxt1 != Lin.sym('next'): self.add('RES.11', False, f'row {row}: fast path', site, f'fast path rewrites the ticket counter (next\' = {nxt1}): tickets of waiters admitted but not yet resumed are invalidated')
-                    self.add('RES.3', ok, f'row {row}: fast path credits the holder in the admitting critical section', site, why)
-                else:
-                    wi = next(i for i, e in enumerate(P.events) if e[0] == 'wait')
-                    late = [e for e in P.events[wi + 1:] if e[0] == 'write' and is_state_loc(e[2][0])]
-                    self.add('RES.3', not late, f'row {row}: no monitor-state write after m_cv.wait returns', late[0][1].shortloc() if late else site,
-                             '' if not late else f'{late[0][2][0][1][-1]} is written after the wait returns ({late[0][1].text()[:50]}): the holder is counted only when it wakes up, so the counter can reach 0 while an admitted request is outstanding')
-                    pre = P.events[:wi]
-                    pre_cnt = [e for e in pre if e[0] == 'write' and e[2][0][1][-1] == 'm_activeCount']
-                    self.add('RES.3', not pre_cnt, f'row {row}: a queued request is not counted as a holder before it is admitted', site,
-                             '' if not pre_cnt else 'm_activeCount is changed by a request that is about to wait')
-                    # ticket
-                    w = P.events[wi]
-                    pred = w[2]
-                    tick_ok = nxt1 == Lin.sym('next') + Lin.const(1)
-                    self.add('RES.8', tick_ok, f'row {row}: one ticket per waiting request', site, '' if tick_ok else f'ticket counter after enqueue is {nxt1}, expected next+1')
-                    if pred is None:
-                        self.unknown('RES.9', f'row {row}', w[1].shortloc(), 'wait without predicate (explicit loop form not recognised)')
-                    else:
-                        caps = [(k, m, val) for k, (m, val) in pred.env.items()]
-                        ids = [c for c in caps if c[1] == 'val' and c[2] == Lin.sym('next')]
-                        byref = [c for c in caps if c[1] == 'ref']
-                        ok = len(ids) == 1 and not byref
-                        self.add('RES.8', ok, f'row {row}: the wait predicate holds the pre-increment ticket by value', w[1].shortloc(),
-                                 '' if ok else f'captures {[(m, repr(x)) for _, m, x in caps]}: expected exactly one by-value capture equal to the ticket (next before the increment)')
-                        self.pred = pred
-                    # enqueue
-                    qs = [e for e in pre if e[0] == 'q']
-                    ext = [e for e in pre if e[0] == 'write' and len(e[2][0][1]) >= 2 and e[2][0][1][-2] in ('@back', '@front')]
-                    want_ext = (not v['QE']) and v['t'] == 'Read' and v['back'] == 'Read'
-                    if 'back' not in used and 'front' in used and not v['QE'] and v['t'] == 'Read':
-                        pass
-                    if ext and not qs:
-                        tgt = ext[0][2][0][1][-2]
-                        val = ext[0][2][1]
-                        ok6 = want_ext and tgt == '@back'
-                        why = ''
-                        if tgt != '@back': why = f'extends the {tgt[1:]} queue entry instead of the back one: {row}'
-                        elif not want_ext: why = f'merges a {v["t"]} request into the back entry (type {v["back"]}) — only consecutive readers may share an entry: {row}'
-                        self.add('RES.6', ok6, f'row {row}: extend', ext[0][1].shortloc(), why)
-                        okv = val == Lin.sym('next') + Lin.const(1) and ext[0][2][0][1][-1] == 'upperBound'
-                        self.add('RES.8', okv, f'row {row}: extended bound is the counter after the increment', ext[0][1].shortloc(), '' if okv else f'stored {val}, expected next+1')
-                        if want_ext: self.add('RES.7', True, f'row {row}: consecutive readers form one batch', ext[0][1].shortloc())
-                    elif len(qs) == 1 and not ext:
-                        kind, val = qs[0][2]
-                        okend = kind in ('push_back', 'emplace_back')
-                        self.add('RES.8', okend, f'row {row}: new entry appended at the back', qs[0][1].shortloc(), '' if okend else f'{kind} used: arrival order is not preserved')
-                        okrec = isinstance(val, Record) and val.f.get('type') == E(v['t']) and val.f.get('upperBound') == Lin.sym('next') + Lin.const(1)
-                        self.add('RES.8', okrec, f'row {row}: pushed entry is {{t, next+1}}', qs[0][1].shortloc(), '' if okrec else f'pushed {val}, expected {{type={v["t"]}, upperBound=next+1}}')
-                        self.add('RES.6', True, f'row {row}: push', qs[0][1].shortloc())
-                        if want_ext:
-                            self.add('RES.7', False, f'row {row}: consecutive readers', qs[0][1].shortloc(),
-                                     f'a read request arriving behind a queued reader gets its own queue entry instead of joining the batch: {row} — readers queued consecutively are granted one at a time')
-                    else:
-                        self.add('RES.6', False, f'row {row}: enqueue performs {len(qs)} queue operation(s) and {len(ext)} extension(s)', site, 'a waiting request must be recorded exactly once')
+        self.loop_form = False
+        for v0 in rows_lock():
+            for ord_after in ('<', '=', '>'):
+                v = dict(v0, ord_after=ord_after)
+                dom = ResDomain(v); ex = Exec(self.facts, dom)
+                paths = ex.run(f, args=None)
+                used = tuple(sorted(dom.consulted))
+                if 'ord_after' not in used and ord_after != '<': continue
+                # rows that differ only in atoms the code never looked at take the same path, but the specification may still
+                # distinguish them (a guard that forgot to look at the queue): keep QE / op / t in every row
+                keep = set(used) | {'QE', 'op', 't'}
+                sig = tuple((k, v[k]) for k in sorted(keep) if k in v)
+                if sig in seen: continue
+                seen[sig] = True
+                row = show(v, [k for k in ('QE', 'op', 't', 'back', 'front', 'next0', 'ord_after') if k in keep])
+                for P in paths:
+                    self._lock_path(P, v, row, dom, this, site, used)
         self.n_lock_rows = len(seen)
+
+    def _writes(self, P, fld_name, upto=None, after=None):
+        out = []
+        for i, e in enumerate(P.events):
+            if upto is not None and i >= upto: break
+            if after is not None and i <= after: continue
+            if e[0] == 'write' and e[2][0][0] == 'f' and e[2][0][1][-1] == fld_name: out.append(e)
+        return out
+
+    def _lock_path(self, P, v, row, dom, this, site, used):
+        if P.unknown_atoms:
+            c = P.unknown_atoms[0]
+            self.unknown('RES.2', f'row {row}', c.shortloc(), f'branch atom outside the table vocabulary: {c.text()[:80]}')
+            return
+        waits = [i for i, e in enumerate(P.events) if e[0] == 'wait']
+        waited = bool(waits)
+        admit_ok = v['op'] == 'None' or (v['op'] == 'Read' and v['t'] == 'Read')
+        if not waited:
+            self.add('RES.2a', admit_ok, f'row {row}: admitted without waiting', site,
+                     '' if admit_ok else f'fast path admits a {v["t"]} request while the active operation is {v["op"]}: {row}')
+            self.add('RES.2b', v['QE'], f'row {row}: admitted without waiting', site,
+                     '' if v['QE'] else f'fast path admits past a non-empty queue (barging): {row}')
+        if v['QE'] and v['op'] in ('None', 'Read') and v['t'] == 'Read':
+            self.add('RES.2c', not waited, f'row {row}: reader, no writer active or queued', site,
+                     '' if not waited else f'a read request waits although no write request is active or waiting: {row}')
+        bw = self._writes(P, 'm_upperUnlockBound')
+        self.add('RES.11', not bw, f'row {row}: lock() leaves the published bound alone', bw[0][1].shortloc() if bw else site,
+                 '' if not bw else f'lock() writes m_upperUnlockBound (= {bw[0][2][1]}) outside select(): admitted waiters with id >= the new bound sleep forever')
+        cw = self._writes(P, 'm_activeCount'); nw = self._writes(P, 'm_idCounter'); ow = self._writes(P, 'm_activeOp')
+        qs_all = P.ev('q')
+        if not waited:
+            cnt_ok = len(cw) == 1 and isinstance(cw[0][2][1], Lin) and cw[0][2][1] == Lin.sym('cnt') + Lin.const(1)
+            op_final = ow[-1][2][1] if ow else E(v['op'])
+            op_ok = op_final == E(v['t'])
+            if cw and not isinstance(cw[0][2][1], Lin):
+                self.unknown('RES.3', f'row {row}: fast path', cw[0][1].shortloc(), f'holder count is set to a value the evaluator cannot follow ({cw[0][2][1]})'); return
+            ok = cnt_ok and op_ok and not nw and not qs_all
+            why = ''
+            if not ok:
+                why = f'fast path must set op := t, cnt := cnt+1 and take no ticket; found op\'={op_final}, count writes={[str(e[2][1]) for e in cw]}, ticket writes={[str(e[2][1]) for e in nw]}, queue ops={[e[2][0] for e in qs_all]}'
+                if nw: self.add('RES.11', False, f'row {row}: fast path', nw[0][1].shortloc(), f'fast path rewrites the ticket counter (next\' = {nw[0][2][1]}): tickets of waiters admitted but not yet resumed are invalidated')
+            self.add('RES.3', ok, f'row {row}: fast path credits the holder in the admitting critical section', site, why)
+            return
+        wi = waits[0]
+        late = [e for e in P.events[wi + 1:] if e[0] == 'write' and is_state_loc(e[2][0])]
+        self.add('RES.3', not late, f'row {row}: no monitor-state write after m_cv.wait returns', late[0][1].shortloc() if late else site,
+                 '' if not late else f'{late[0][2][0][1][-1]} is written after the wait returns ({late[0][1].text()[:50]}): the holder is counted only when it wakes up, so the counter can reach 0 while an admitted request is outstanding')
+        pre = P.events[:wi]
+        pre_cnt = [e for e in pre if e[0] == 'write' and e[2][0][0] == 'f' and e[2][0][1][-1] == 'm_activeCount']
+        self.add('RES.3', not pre_cnt, f'row {row}: a queued request is not counted as a holder before it is admitted', site,
+                 '' if not pre_cnt else 'm_activeCount is changed by a request that is about to wait')
+        # ticket: exactly one increment of the counter before the wait
+        pre_next = [e for e in pre if e[0] == 'write' and e[2][0][0] == 'f' and e[2][0][1][-1] == 'm_idCounter']
+        vals = [e[2][1] for e in pre_next]
+        if any(not isinstance(x, Lin) for x in vals):
+            self.unknown('RES.8', f'row {row}', pre_next[0][1].shortloc(), 'ticket counter written with a value the evaluator cannot follow')
+        else:
+            tick_ok = len(vals) == 1 and vals[0] == Lin.sym('next') + Lin.const(1)
+            self.add('RES.8', tick_ok, f'row {row}: one ticket per waiting request', site, '' if tick_ok else f'ticket counter writes before the wait: {[str(x) for x in vals]}, expected exactly next+1')
+        w = P.events[wi]
+        pred = w[2]
+        if pred is None:
+            # loop form `while (!(ticket < bound)) wait(lock)`: decided through the ord_after atom
+            self.loop_form = True
+            if 'ord_after' not in used:
+                self.unknown('RES.9', f'row {row}', w[1].shortloc(), 'wait without predicate whose loop condition does not compare the ticket with the published bound')
+            else:
+                returns = P.end in ('exit', 'return', None)
+                want = v['ord_after'] == '<'
+                ok = (returns == want) and (len(waits) == 1 if want else True)
+                self.add('RES.9', ok, f'row {row}: after a wake-up the request returns iff its ticket is below the published bound (returns: {returns})', w[1].shortloc(),
+                         '' if ok else ('the request returns from lock() although its ticket is not below the bound' if returns else 'the request keeps waiting although its ticket is below the bound'))
+                self.add('RES.8', True, f'row {row}: the loop compares the pre-increment ticket held in a local', w[1].shortloc())
+        else:
+            caps = [(k, m, val) for k, (m, val) in pred.env.items()]
+            ids = [c for c in caps if c[1] == 'val' and c[2] == Lin.sym('next')]
+            byref = [c for c in caps if c[1] == 'ref']
+            ok = len(ids) == 1 and not byref
+            self.add('RES.8', ok, f'row {row}: the wait predicate holds the pre-increment ticket by value', w[1].shortloc(),
+                     '' if ok else f'captures {[(m, repr(x)) for _, m, x in caps]}: expected exactly one by-value capture equal to the ticket (next before the increment)')
+            self.pred = pred
+        # enqueue
+        qs = [e for e in pre if e[0] == 'q']
+        ext = [e for e in pre if e[0] == 'write' and e[2][0][0] == 'f' and len(e[2][0][1]) >= 2 and e[2][0][1][-2] in ('@back', '@front')]
+        want_ext = (not v['QE']) and v['t'] == 'Read' and v['back'] == 'Read'
+        nxt_at_enqueue = Lin.sym('next') + Lin.const(1)
+        if ext and not qs:
+            tgt = ext[0][2][0][1][-2]
+            val = ext[0][2][1]
+            ok6 = want_ext and tgt == '@back'
+            why = ''
+            if tgt != '@back': why = f'extends the {tgt[1:]} queue entry instead of the back one: {row}'
+            elif not want_ext: why = f'merges a {v["t"]} request into the back entry (type {v["back"]}) — only consecutive readers may share an entry: {row}'
+            self.add('RES.6', ok6, f'row {row}: extend', ext[0][1].shortloc(), why)
+            if not isinstance(val, Lin): self.unknown('RES.8', f'row {row}', ext[0][1].shortloc(), f'extended bound {val} not understood')
+            else:
+                okv = val == nxt_at_enqueue and ext[0][2][0][1][-1] == 'upperBound'
+                self.add('RES.8', okv, f'row {row}: extended bound is the counter after the increment', ext[0][1].shortloc(), '' if okv else f'stored {val}, expected next+1')
+            if want_ext: self.add('RES.7', True, f'row {row}: consecutive readers form one batch', ext[0][1].shortloc())
+        elif len(qs) == 1 and not ext:
+            kind, val = qs[0][2]
+            okend = kind in ('push_back', 'emplace_back')
+            self.add('RES.8', okend, f'row {row}: new entry appended at the back', qs[0][1].shortloc(), '' if okend else f'{kind} used: arrival order is not preserved')
+            if not isinstance(val, Record) or not isinstance(val.f.get('upperBound'), Lin):
+                self.unknown('RES.8', f'row {row}', qs[0][1].shortloc(), f'pushed entry {val} not understood')
+            else:
+                okrec = val.f.get('type') == E(v['t']) and val.f.get('upperBound') == nxt_at_enqueue
+                self.add('RES.8', okrec, f'row {row}: pushed entry is {{t, next+1}}', qs[0][1].shortloc(), '' if okrec else f'pushed {val}, expected {{type={v["t"]}, upperBound=next+1}}')
+            self.add('RES.6', True, f'row {row}: push', qs[0][1].shortloc())
+            if want_ext:
+                self.add('RES.7', False, f'row {row}: consecutive readers', qs[0][1].shortloc(),
+                         f'a read request arriving behind a queued reader gets its own queue entry instead of joining the batch: {row} — readers queued consecutively are granted one at a time')
+        else:
+            self.add('RES.6', False, f'row {row}: enqueue performs {len(qs)} queue operation(s) and {len(ext)} extension(s)', site, 'a waiting request must be recorded exactly once (a second operation overwrites or duplicates a queued request)')
 
     # ---- wait predicate ------------------------------------------------------------------------------------------------
     def predicate(self):
         pred = getattr(self, 'pred', None)
+        if pred is None and getattr(self, 'loop_form', False): return       # loop form: RES.9 was decided through the ord_after rows
         if pred is None or pred.fn is None:
             self.unknown('RES.9', 'wait predicate', self.fn['lock'].shortloc() if 'lock' in self.fn else '', 'predicate lambda not found'); return
         table = []
@@ -333,7 +395,7 @@ class ResourceAnalysis:
                     self.unknown('RES.4', f'row {row}', P.unknown_atoms[0].shortloc(), f'branch atom outside the vocabulary: {P.unknown_atoms[0].text()[:80]}'); continue
                 st = P.store
                 sel = [i for i, e in enumerate(P.events) if e[0] == 'enter' and e[2] == f'{CLS}::select']
-                cntw = [e for e in P.events if e[0] == 'write' and e[2][0][1][-1] == 'm_activeCount']
+                cntw = [e for e in P.events if e[0] == 'write' and e[2][0][0] == 'f' and e[2][0][1][-1] == 'm_activeCount']
                 first = cntw[0][2][1] if cntw else None
                 dec_ok = first == Lin.sym('cnt') - Lin.const(1) and (not sel or all(P.events.index(e) > sel[0] for e in cntw[1:])) and (bool(sel) or len(cntw) == 1)
                 self.add('RES.4', dec_ok, f'row {row}: exactly one decrement of the holder count per unlock', cntw[0][1].shortloc() if cntw else site,
@@ -364,29 +426,29 @@ class ResourceAnalysis:
         sel = self.fn.get('select')
         ssite = sel.shortloc() if sel else site
         if v['QE']:
-            self.add('RES.12', op1 == E('None'), f'row {row}: empty queue => idle state restored', ssite,
-                     '' if op1 == E('None') else f'active operation left at {op1} with nobody holding the lock: the next request queues and nobody is left to wake it')
-            both_reset = nxt1 == Lin.const(0) and bnd1 == Lin.const(0)
-            none_reset = nxt1 == Lin.sym('next') and bnd1 == Lin.sym('bound')
-            self.add('RES.11', both_reset or none_reset, f'row {row}: ticket counter and bound are reset together or not at all', ssite,
-                     '' if (both_reset or none_reset) else f'idle reset gives next\'={nxt1}, bound\'={bnd1}: tickets restart below a stale bound (requests pass the predicate while a writer holds) or above it (never granted)')
-            okc = cnt1 in (Lin.sym('cnt') - Lin.const(1), Lin.const(0))
-            self.add('RES.4', okc, f'row {row}: idle state has no holders', ssite, '' if okc else f'holder count {cnt1} after the last unlock')
+            self.add3('RES.12', op1, [E('None')], f'row {row}: empty queue => idle state restored', ssite,
+                      f'active operation left at {op1} with nobody holding the lock: the next request queues and nobody is left to wake it')
+            if not isinstance(nxt1, Lin) or not isinstance(bnd1, Lin):
+                self.unknown('RES.11', f'row {row}', ssite, f'ticket counter / bound after the idle branch not understood ({nxt1}, {bnd1})')
+            else:
+                both_reset = nxt1 == Lin.const(0) and bnd1 == Lin.const(0)
+                none_reset = nxt1 == Lin.sym('next') and bnd1 == Lin.sym('bound')
+                self.add('RES.11', both_reset or none_reset, f'row {row}: ticket counter and bound are reset together or not at all', ssite,
+                         '' if (both_reset or none_reset) else f'idle reset gives next\'={nxt1}, bound\'={bnd1}: tickets restart below a stale bound (requests pass the predicate while a writer holds) or above it (never granted)')
+            self.add3('RES.4', cnt1, [Lin.sym('cnt') - Lin.const(1), Lin.const(0)], f'row {row}: idle state has no holders', ssite, f'holder count {cnt1} after the last unlock')
             self.add('RES.5', not qs, f'row {row}: nothing is removed from an empty queue', ssite, '' if not qs else f'queue operation {qs[0][2][0]} on an empty queue')
         else:
             pops = [e[2][0] for e in qs]
             okq = pops == ['pop_front']
             self.add('RES.5', okq, f'row {row}: exactly the front entry is removed', (qs[0][1].shortloc() if qs else ssite),
                      '' if okq else f'queue operations {pops}: requests must be granted in arrival order, one entry per selection')
-            self.add('RES.5', op1 == E(v['front']), f'row {row}: the active operation becomes the front entry\'s type', ssite,
-                     '' if op1 == E(v['front']) else f'active operation set to {op1}, front entry is {v["front"]}')
-            self.add('RES.5', bnd1 == Lin.sym('front.ub'), f'row {row}: the published bound is the front entry\'s bound (whole batch)', ssite,
-                     '' if bnd1 == Lin.sym('front.ub') else f'bound set to {bnd1}, expected front.upperBound: ' + ('part of the batch keeps waiting' if True else ''))
+            self.add3('RES.5', op1, [E(v['front'])], f'row {row}: the active operation becomes the front entry\'s type', ssite, f'active operation set to {op1}, front entry is {v["front"]}')
+            self.add3('RES.5', bnd1, [Lin.sym('front.ub')], f'row {row}: the published bound is the front entry\'s bound (whole batch)', ssite,
+                      f'bound set to {bnd1}, expected front.upperBound: part of the batch keeps waiting / tickets beyond the batch are admitted')
             want = Lin.sym('front.ub') - Lin.sym('bound')
-            okc = cnt1 in (want, Lin.sym('cnt') - Lin.const(1) + want)
-            self.add('RES.3', okc, f'row {row}: select() credits every admitted ticket before the bound is published', ssite,
-                     '' if okc else f'holder count after admission is {cnt1}, expected front.upperBound - bound (the number of tickets admitted): an admitted request that has not resumed yet is not counted, the count reaches 0 too early')
-            self.add('RES.11', nxt1 == Lin.sym('next'), f'row {row}: admission does not touch the ticket counter', ssite, '' if nxt1 == Lin.sym('next') else f'next\'={nxt1}')
+            self.add3('RES.3', cnt1, [want, Lin.sym('cnt') - Lin.const(1) + want], f'row {row}: select() credits every admitted ticket before the bound is published', ssite,
+                      f'holder count after admission is {cnt1}, expected front.upperBound - bound (the number of tickets admitted): an admitted request that has not resumed yet is not counted, the count reaches 0 too early')
+            self.add3('RES.11', nxt1, [Lin.sym('next')], f'row {row}: admission does not touch the ticket counter', ssite, f'next\'={nxt1}')
 
     # ---- RES.13 forwarding -----------------------------------------------------------------------------------------------
     def forwarding(self):
@@ -458,6 +520,13 @@ _cache = {}
 def analyse(facts, rep):
     key = id(facts)
     if key not in _cache:
+        import roles
+        fm, entry, fnm, why = roles.infer_resource(facts, CLS)
+        if fm is not None and not roles.is_identity(fm, entry[1], fnm):
+            ren = {k: v for m in (fm, entry[1], fnm) for k, v in m.items() if k != v}
+            facts = roles.renamed_facts(facts, facts.dir, CLS, fm, entry, fnm)
+            facts.roles = ren
+            rep.assume('members recognised by role (type and use), reported under their canonical names: ' + ', '.join(f'{k} = {v}' for k, v in sorted(ren.items())))
         a = ResourceAnalysis(facts, rep)
         a.run()
         _cache.clear(); _cache[key] = a
@@ -490,7 +559,7 @@ def emit(facts, rep, prop, rules, floors):
     if rep.tier == 'thorough' and 'RES.1' in rules:
         import irlock, frontend
         pub = {f'{CLS}::{n}()' for n in ('lockRead', 'lockWrite', 'unlockRead', 'unlockWrite')}
-        ok, viols, stats, err = irlock.check_class(frontend.REPO, 'src/threading/rwp/Resource.cpp', facts, CLS, 'm_mutex', list(STATE), lambda d: d in pub)
+        ok, viols, stats, err = irlock.check_class(frontend.REPO, 'src/threading/rwp/Resource.cpp', a.facts, CLS, 'm_mutex', list(STATE), lambda d: d in pub)
         rep.rule('RES.1-IR', 'second reading of RES.1 from LLVM IR (-O0): every address computation of a monitor-state field executes with m_mutex held (entry states of internal functions = intersection over call sites)')
         if ok is None: rep.inconclusive('RES.1-IR', 'IR cross-check', 'src/threading/rwp/Resource.cpp', err)
         elif ok: rep.ok('RES.1-IR', f'{stats["state_address_computations"]} address computations of state fields in {stats["functions_touching_state"]} IR functions, all with the mutex held', 'src/threading/rwp/Resource.cpp')
